@@ -436,6 +436,15 @@ private:
                 {
                     return;
                 }
+                {
+                    auto result = unicode_traits::validate(text_buffer_.data(), text_buffer_.size());
+                    if (JSONCONS_UNLIKELY(result.ec != unicode_traits::unicode_errc()))
+                    {
+                        ec = bson_errc::invalid_utf8_text_string;
+                        more_ = false;
+                        return;
+                    }
+                }
                 visitor.string_value(text_buffer_, semantic_tag::regex, *this, ec);
                 more_ = !cursor_mode_;
                 break;
@@ -471,6 +480,12 @@ private:
                 if (JSONCONS_UNLIKELY(n != 1))
                 {
                     ec = bson_errc::unexpected_eof;
+                    more_ = false;
+                    return;
+                }
+                if (JSONCONS_UNLIKELY(c > 1)) // the BSON specification allows only 0x00 and 0x01
+                {
+                    ec = bson_errc::unknown_type;
                     more_ = false;
                     return;
                 }
@@ -691,6 +706,12 @@ private:
             return string_view{};
         }
         offset += data.size();
+        if (JSONCONS_UNLIKELY(data[size - 1] != 0)) // the declared length must end at the terminating null
+        {
+            ec = bson_errc::size_mismatch;
+            more_ = false;
+            return string_view{};
+        }
 
         state_stack_.back().pos += offset;
         return string_view{reinterpret_cast<const char*>(data.data()), data.size() - 1};
